@@ -55,3 +55,5 @@ Lemma secp_ranges : 0 < secp_n < 2 ^ 256 /\ secp_n < secp_p /\ secp_p < 2 ^ 256 
 Proof. vm_compute. repeat split. Qed.
 Lemma nist_ranges : 0 < nist_n < 2 ^ 256 /\ nist_n < nist_p /\ nist_p < 2 ^ 256 /\ nist_p mod 4 = 3.
 Proof. vm_compute. repeat split. Qed.
+Lemma secp_p_le : secp_p <= 2 ^ 256. Proof. vm_compute. discriminate. Qed.
+Lemma nist_p_le : nist_p <= 2 ^ 256. Proof. vm_compute. discriminate. Qed.
